@@ -63,26 +63,26 @@ func reg(p *propCfg) {
 }
 
 func init() {
-	reg(&propCfg{ID: "C13", Test: "TestC13", Quick: tierCfg{150, 8}, Thorough: tierCfg{3000, 16}, Race: true, Fatal: true, Timeout: 8 * time.Minute})
-	reg(&propCfg{ID: "C14", Test: "TestC14", Quick: tierCfg{3000, 4}, Thorough: tierCfg{60000, 16}})
-	reg(&propCfg{ID: "C19", Test: "TestC19", Quick: tierCfg{6000, 4}, Thorough: tierCfg{100000, 16}})
-	reg(&propCfg{ID: "C11", Test: "TestC11", Quick: tierCfg{10000, 4}, Thorough: tierCfg{300000, 16}})
-	reg(&propCfg{ID: "C10", Test: "TestC10", Quick: tierCfg{4000, 6}, Thorough: tierCfg{60000, 16}, Fatal: true})
+	reg(&propCfg{ID: "C13", Test: "TestC13", Quick: tierCfg{150, 8}, Thorough: tierCfg{5000, 16}, Race: true, Fatal: true, Timeout: 8 * time.Minute})
+	reg(&propCfg{ID: "C14", Test: "TestC14", Quick: tierCfg{3000, 4}, Thorough: tierCfg{120000, 16}})
+	reg(&propCfg{ID: "C19", Test: "TestC19", Quick: tierCfg{6000, 4}, Thorough: tierCfg{400000, 16}})
+	reg(&propCfg{ID: "C11", Test: "TestC11", Quick: tierCfg{10000, 4}, Thorough: tierCfg{600000, 16}})
+	reg(&propCfg{ID: "C10", Test: "TestC10", Quick: tierCfg{4000, 6}, Thorough: tierCfg{150000, 16}, Fatal: true, Fuzz: []fuzzCfg{{"FuzzC10", 3 * time.Minute}, {"FuzzBytes", 3 * time.Minute}}})
 	reg(&propCfg{ID: "C20", Test: "TestC20", Quick: tierCfg{700, 8}, Thorough: tierCfg{15000, 16}})
-	reg(&propCfg{ID: "C16", Test: "TestC16", Quick: tierCfg{5000, 4}, Thorough: tierCfg{100000, 16}, Fatal: true})
-	reg(&propCfg{ID: "C09", Test: "TestC09", Quick: tierCfg{10000, 4}, Thorough: tierCfg{150000, 16}})
-	reg(&propCfg{ID: "C04", Test: "TestC04", Quick: tierCfg{10000, 4}, Thorough: tierCfg{150000, 16}})
+	reg(&propCfg{ID: "C16", Test: "TestC16", Quick: tierCfg{5000, 4}, Thorough: tierCfg{250000, 16}, Fatal: true})
+	reg(&propCfg{ID: "C09", Test: "TestC09", Quick: tierCfg{10000, 4}, Thorough: tierCfg{600000, 16}})
+	reg(&propCfg{ID: "C04", Test: "TestC04", Quick: tierCfg{10000, 4}, Thorough: tierCfg{600000, 16}})
 	reg(&propCfg{ID: "C06", Test: "TestC06", Quick: tierCfg{4000, 4}, Thorough: tierCfg{100000, 16}})
-	reg(&propCfg{ID: "C03", Test: "TestC03", Quick: tierCfg{4000, 4}, Thorough: tierCfg{100000, 16}})
+	reg(&propCfg{ID: "C03", Test: "TestC03", Quick: tierCfg{4000, 4}, Thorough: tierCfg{150000, 16}})
 	reg(&propCfg{ID: "C17", Test: "TestC17", Quick: tierCfg{800, 8}, Thorough: tierCfg{20000, 16}})
-	reg(&propCfg{ID: "C15", Test: "TestC15", Quick: tierCfg{5000, 4}, Thorough: tierCfg{150000, 16}})
-	reg(&propCfg{ID: "C05", Test: "TestC05", Quick: tierCfg{1200, 8}, Thorough: tierCfg{25000, 16}})
-	reg(&propCfg{ID: "C18", Test: "TestC18", Quick: tierCfg{4000, 4}, Thorough: tierCfg{100000, 16}})
-	reg(&propCfg{ID: "C07", Test: "TestC07", Quick: tierCfg{2500, 4}, Thorough: tierCfg{60000, 16}})
-	reg(&propCfg{ID: "C02", Test: "TestC02", Quick: tierCfg{4000, 4}, Thorough: tierCfg{100000, 16}})
-	reg(&propCfg{ID: "C08", Test: "TestC08", Quick: tierCfg{5000, 4}, Thorough: tierCfg{150000, 16}})
-	reg(&propCfg{ID: "C01", Test: "TestC01", Quick: tierCfg{4000, 4}, Thorough: tierCfg{100000, 16}})
-	reg(&propCfg{ID: "C12", Test: "TestC12", Quick: tierCfg{10000, 4}, Thorough: tierCfg{200000, 16}})
+	reg(&propCfg{ID: "C15", Test: "TestC15", Quick: tierCfg{5000, 4}, Thorough: tierCfg{500000, 16}})
+	reg(&propCfg{ID: "C05", Test: "TestC05", Quick: tierCfg{1200, 8}, Thorough: tierCfg{40000, 16}, Fuzz: []fuzzCfg{{"FuzzC05", 2 * time.Minute}, {"FuzzBytes", 2 * time.Minute}}})
+	reg(&propCfg{ID: "C18", Test: "TestC18", Quick: tierCfg{4000, 4}, Thorough: tierCfg{400000, 16}})
+	reg(&propCfg{ID: "C07", Test: "TestC07", Quick: tierCfg{2500, 4}, Thorough: tierCfg{120000, 16}})
+	reg(&propCfg{ID: "C02", Test: "TestC02", Quick: tierCfg{4000, 4}, Thorough: tierCfg{250000, 16}})
+	reg(&propCfg{ID: "C08", Test: "TestC08", Quick: tierCfg{5000, 4}, Thorough: tierCfg{500000, 16}})
+	reg(&propCfg{ID: "C01", Test: "TestC01", Quick: tierCfg{4000, 4}, Thorough: tierCfg{300000, 16}, Fuzz: []fuzzCfg{{"FuzzC01", 3 * time.Minute}}})
+	reg(&propCfg{ID: "C12", Test: "TestC12", Quick: tierCfg{10000, 4}, Thorough: tierCfg{600000, 16}})
 }
 
 type finding struct {
@@ -493,6 +493,19 @@ func run(p *propCfg, work, tier string, seed int64) int {
 		extraCov["regression_cases_replayed"] = nreg
 	}
 
+	// Native fuzz campaigns (thorough tier only): bounded by wall-clock, all cores.
+	if tier == "thorough" {
+		for _, fz := range p.Fuzz {
+			v, inc, execs := runFuzz(p, fz, work, seed, hooks)
+			violations = append(violations, v...)
+			if inc != "" && inconcl == "" {
+				inconcl = inc
+			}
+			extraCov["fuzz_execs_"+fz.Target] = execs
+			extraCov["fuzz_seconds_"+fz.Target] = int(fz.Dur.Seconds())
+		}
+	}
+
 	// Optional extra stages (registered per property).
 	if st := stages[p.ID]; st != nil {
 		v, inc := st(p, bin, work, tier, seed, hooks, openKeys, extraCov)
@@ -647,6 +660,60 @@ func run(p *propCfg, work, tier string, seed int64) int {
 		return 2
 	}
 	return 0
+}
+
+// runFuzz runs one native fuzz campaign with `go test -fuzz` in the harness module.
+func runFuzz(p *propCfg, fz fuzzCfg, work string, seed int64, hooks bool) (violations []string, inconclusive string, execs int64) {
+	fail := filepath.Join(work, "fuzzfail_"+fz.Target+".json")
+	journal := filepath.Join(work, "fuzzjournal_"+fz.Target+".json")
+	args := []string{"test", "-vet=off", "-run", "^$", "-fuzz", "^" + fz.Target + "$", "-fuzztime", fz.Dur.String(), "-parallel", "16"}
+	if hooks {
+		args = append(args, "-tags", "verif")
+	}
+	args = append(args, "./props")
+	cmd := exec.Command("go", args...)
+	cmd.Dir = harnessDir
+	cmd.Env = append(baseEnv(), "VERIF_FAIL="+fail, "VERIF_JOURNAL="+journal, "VERIF_TIER=thorough",
+		"VERIF_HOOKS="+map[bool]string{true: "1", false: "0"}[hooks], "VERIF_REPO="+repoDir, "VERIF_DIR="+verifDir, "VERIF_KNOWN_OPEN=")
+	out, err := cmd.CombinedOutput()
+	for _, line := range strings.Split(string(out), "\n") {
+		if i := strings.Index(line, "execs: "); i >= 0 {
+			var n int64
+			fmt.Sscanf(line[i+7:], "%d", &n)
+			if n > execs {
+				execs = n
+			}
+		}
+	}
+	// crashers written by the go tool into the source tree are moved out of it
+	crashDir := filepath.Join(harnessDir, "props", "testdata", "fuzz", fz.Target)
+	var crashers []string
+	if ents, e := os.ReadDir(crashDir); e == nil {
+		for _, ent := range ents {
+			dst := filepath.Join(verifDir, "replays", fmt.Sprintf("%s-fuzz-%s-%s", p.ID, fz.Target, ent.Name()))
+			if copyFile(filepath.Join(crashDir, ent.Name()), dst) == nil {
+				crashers = append(crashers, dst)
+			}
+		}
+		_ = os.RemoveAll(filepath.Join(harnessDir, "props", "testdata"))
+	}
+	if err == nil {
+		return nil, "", execs
+	}
+	fmt.Printf("fuzz target %s failed:\n%s\n", fz.Target, lastLines(string(out), 40))
+	switch {
+	case fileNonEmpty(fail):
+		dst := filepath.Join(verifDir, "replays", fmt.Sprintf("%s-fuzz-%s-seed%d.json", p.ID, fz.Target, seed))
+		_ = copyFile(fail, dst)
+		return []string{dst}, "", execs
+	case p.Fatal && fileNonEmpty(journal):
+		dst := filepath.Join(verifDir, "replays", fmt.Sprintf("%s-fuzz-%s-seed%d.json", p.ID, fz.Target, seed))
+		_ = copyFile(journal, dst)
+		return []string{dst}, "", execs
+	case len(crashers) > 0:
+		return crashers[:1], "", execs
+	}
+	return nil, "fuzz-" + fz.Target + "-failed-without-crasher", execs
 }
 
 func fileNonEmpty(p string) bool {
